@@ -16,11 +16,13 @@ inline void sym_outcomes(int n) { for (int i = 0; i < n; ++i) { g_out[i] = nonde
 // leaf that completes inside start() with the symbolic outcome of slot idx; value type int (or void if Void)
 template <bool Void, template <typename...> class V, template <typename...> class T> struct leaf_values { using type = V<T<int>>; };
 template <template <typename...> class V, template <typename...> class T> struct leaf_values<true, V, T> { using type = V<T<>>; };
+template <bool EPtr, template <typename...> class V> struct sleaf_errors { using type = V<int>; };
+template <template <typename...> class V> struct sleaf_errors<true, V> { using type = V<std::exception_ptr>; };
 template <bool Void = false, bool EPtr = false>
 struct sleaf {
   int idx;
   template <template <typename...> class V, template <typename...> class T> using value_types = typename leaf_values<Void, V, T>::type;
-  template <template <typename...> class V> using error_types = std::conditional_t<EPtr, V<std::exception_ptr>, V<int>>;
+  template <template <typename...> class V> using error_types = typename sleaf_errors<EPtr, V>::type;
   static constexpr bool sends_done = true;
   static constexpr unifex::blocking_kind blocking = unifex::blocking_kind::always_inline;
   template <typename R> struct op {
